@@ -215,7 +215,7 @@ META = {
     'required_labels': ['c11.release-instant', 'c11.conformance', 'c11.peak-spacing', 'c11.tr-release-instant',
                         'c11.tr-colour', 'c11.tr-green-conforms'],
     'required_covers': ['nontrivial', 'green', 'yellow', 'red', 'two-instances'],
-    'bounds': {'quick': 'n=3 packets; (rate,bucket) in {(8,4),(64,16)}, peak in {None,64}; two-rate: CIR 8, CBS 4, (PIR,PBS) in {None,(16,6),(8,3)}; sizes Int>=1, gaps>=0 unbounded',
+    'bounds': {'quick': 'n=3 packets; (rate,bucket) in {(8,4),(64,16)}, peak in {None,64}; two-rate: CIR 8, CBS 4, (PIR,PBS) in {None,(16,6),(8,3)}; sizes Int>=1, gaps>=0 unbounded; bucket sizes of 0; PIR below CIR; two shapers side by side; two-burst workloads of 5-7 packets',
                'thorough': 'n=4'},
     'assumptions': ['two-rate green/yellow decision uses the public current_bucket_commit/update_time read at the previous '
                     'departure, refilled at CIR capped at CBS (the statement does not fix what yellow/red do to the committed bucket)'],
